@@ -15,7 +15,7 @@ from concurrent.futures import ThreadPoolExecutor
 VERIF = os.path.dirname(os.path.dirname(os.path.abspath(__file__)))
 REPO = os.environ.get("VERIF_REPO", "/repo")
 SPEC = os.path.join(VERIF, "spec")
-EVID = os.path.join(VERIF, "evidence")
+EVID = os.environ.get("VERIF_EVID") or os.path.join(VERIF, "evidence")   # try_seed.sh redirects it: /verif/evidence only ever describes /repo
 REPLAY = os.path.join(VERIF, "replay")
 PY = "/venv/bin/python"
 TLA_CP = "/opt/veriftools/tla/tla2tools.jar:/opt/veriftools/tla/CommunityModules-deps.jar"
